@@ -7,7 +7,7 @@ kind, base = sys.argv[1], sys.argv[2]
 os.makedirs(base, exist_ok=True)
 head = subprocess.check_output(['git', '-C', '/repo', 'rev-parse', 'HEAD']).decode().strip()
 props = [json.loads(l) for l in open('/verif/properties.jsonl')]
-src_tmpl = open('/tmp/wt2/C01.out/PROMPT.txt').read().split('\n\n\nAn earlier round already produced')[0] if kind == 'mutants' else open('/tmp/wt4/C01.out/PROMPT.txt').read()
+src_tmpl = open('/verif/tools/prompts/mutants.txt').read() if kind == 'mutants' else open('/verif/tools/prompts/keeps.txt').read()
 for p in props:
     pid = p['id']
     wt = f'{base}/{pid}'
@@ -37,7 +37,7 @@ for p in props:
         t = src_tmpl
         a = t.index('This is a SECOND round.')
         b = t.index('Make each patch look like a real maintenance pull request')
-        t = t[:a] + 'This is a THIRD round. Earlier rounds already produced these edits for this property - do NOT repeat them, pick different functions, different statements or different transformations (deeper restructurings are welcome: changed loop structure, changed intermediate data structures, merged or split functions, code moved between modules):\n' + '\n'.join(earlier) + '\n\n' + t[b:]
+        t = t[:a] + 'This is a FURTHER round. Earlier rounds already produced these edits for this property - do NOT repeat them, pick different functions, different statements or different transformations (deeper restructurings are welcome: changed loop structure, changed intermediate data structures, merged or split functions, code moved between modules):\n' + '\n'.join(earlier) + '\n\n' + t[b:]
         txt = t.replace('/tmp/wt4/C01', wt).replace('"C01"', f'"{pid}"')
     open(f'{out}/PROMPT.txt', 'w').write(txt)
     print(pid, len(txt))
